@@ -233,3 +233,54 @@ func selftest(only, repo, verif string) int {
 	}
 	return 0
 }
+
+// selftestFor runs the variants of one property and returns counters for the evidence file.
+func selftestFor(id, repo, verif string) map[string]any {
+	res := map[string]any{"variants": 0, "mutants_fired": 0, "neutral_silent": 0, "missed": 0, "skipped": 0, "missed_ids": []string{}}
+	vs, err := loadVariants(verif)
+	if err != nil {
+		res["error"] = err.Error()
+		return res
+	}
+	var sel []Variant
+	for _, v := range vs {
+		if v.Property == id {
+			sel = append(sel, v)
+		}
+	}
+	results := make([]variantResult, len(sel))
+	sem := make(chan struct{}, 5)
+	var wg sync.WaitGroup
+	for i := range sel {
+		wg.Add(1)
+		go func(i int) {
+			defer wg.Done()
+			sem <- struct{}{}
+			defer func() { <-sem }()
+			results[i] = runVariant(sel[i], repo, verif)
+		}(i)
+	}
+	wg.Wait()
+	fired, silent, missed, skipped := 0, 0, 0, 0
+	var missedIDs, detail []string
+	for _, r := range results {
+		switch {
+		case r.Skipped || r.Err != "":
+			skipped++
+			detail = append(detail, r.V.ID+": skipped ("+r.Err+")")
+		case r.Pass && r.V.Expect == "none":
+			silent++
+		case r.Pass:
+			fired++
+			detail = append(detail, r.V.ID+": fired "+strings.Join(r.Fired, ","))
+		default:
+			missed++
+			missedIDs = append(missedIDs, r.V.ID)
+		}
+	}
+	if missedIDs == nil {
+		missedIDs = []string{}
+	}
+	res["variants"], res["mutants_fired"], res["neutral_silent"], res["missed"], res["skipped"], res["missed_ids"], res["detail"] = len(sel), fired, silent, missed, skipped, missedIDs, detail
+	return res
+}
